@@ -306,7 +306,7 @@ func (w *V3World) wdrain(pol string) map[string]interface{} {
 		w.settle(3)
 		pl := w.pendingList()
 		if len(pl) == 0 {
-			w.settle(20) // stay empty for 200 ms
+			w.settle(30) // stay empty for 300 ms
 			if pl = w.pendingList(); len(pl) == 0 {
 				break
 			}
